@@ -465,10 +465,13 @@ def build_native(il_text, workdir, name="prog", runtime_c=None, sanitize=True, m
     return exe
 
 
+ASAN_RC = 213
+
+
 def run_native(exe, args=(), timeout=10, stdin=None):
-    """-> (rc, stdout str, stderr str); rc < 0 signal, -999 timeout. ASan reports make rc 99."""
+    """-> (rc, stdout str, stderr str); rc < 0 signal, -999 timeout. ASan reports make rc ASAN_RC (programs under test exit with <= 127)."""
     import os, subprocess
-    env = dict(os.environ, ASAN_OPTIONS="detect_leaks=0:exitcode=99:abort_on_error=0")
+    env = dict(os.environ, ASAN_OPTIONS="detect_leaks=0:exitcode=%d:" % ASAN_RC + "abort_on_error=0")
     try:
         p = subprocess.run([exe] + list(args), input=stdin, stdout=subprocess.PIPE, stderr=subprocess.PIPE, timeout=timeout, env=env)
         return p.returncode, p.stdout.decode("utf-8", "replace"), p.stderr.decode("utf-8", "replace")
